@@ -115,7 +115,15 @@ func (e naiveEngine) eval() {
 			var subst ast.ConstSubstList
 			for i, baseTerm := range internalPremise.Args {
 				v, _ := baseTerm.(ast.Variable)
-				subst = subst.Extend(v, fact.Args[i].(ast.Constant))
+				c := fact.Args[i].(ast.Constant)
+				if prev, bound := subst.Get(v).(ast.Constant); bound && v.Symbol != "_" && v.Symbol != "" {
+					if !prev.Equals(c) {
+						// A variable that occurs twice has to agree in both columns.
+						return nil
+					}
+					continue
+				}
+				subst = subst.Extend(v, c)
 			}
 			substs = append(substs, subst)
 			return nil
